@@ -65,10 +65,18 @@ def _run_edge(b, mg, m, idx, cfgi, props):
 def _choose(b, mg, m, obs, obs_out, sess, pre, src):
     """the spec target that explains the observation best (the spec may be
     nondeterministic); judged on all observables, not only the property's"""
-    if len(m.dsts) == 1:
-        return m.dsts[0]
+    dsts = list(m.dsts)
+    alt = getattr(sess, 'alt', None)
+    if alt:
+        # the call had a form for which the library may choose between two behaviours (e.g. a NumPy integer
+        # where an int is documented): the other macro-edge from the same state is an equally good explanation
+        for m2 in mg.out.get(m.src, []):
+            if m2.name == alt[0] and list(m2.args) == list(alt[1]):
+                dsts += list(m2.dsts)
+    if len(dsts) == 1:
+        return dsts[0]
     best, bestn = None, None
-    for d in m.dsts:
+    for d in dsts:
         exp = b.expected_view(mg.dst_state(d))
         n = 0
         for p in b.ALL:
@@ -173,3 +181,32 @@ def path_tour(binding, mg, props, paths, ncfg, jobs=None, seed=0):
             for r in pool.imap_unordered(_path_job, batches):
                 results.extend(r)
     return results
+
+
+ASCII_ENV = {'LC_ALL': 'C', 'LANG': 'C', 'PYTHONUTF8': '0', 'PYTHONCOERCECLOCALE': '0'}
+
+
+def env_path_tour(binding, mg, props, paths, ncfg, env, seed=0, timeout=1200):
+    """path_tour in a child interpreter started with the environment `env` (what a process inherits at start-up -
+    the default text encoding - cannot be changed in a forked worker).  Returns (info, results)."""
+    import pickle
+    import subprocess
+    import sys
+    import tempfile
+    import shutil
+    d = tempfile.mkdtemp(prefix='darrenv_')
+    try:
+        job, out = os.path.join(d, 'job.pkl'), os.path.join(d, 'out.pkl')
+        with open(job, 'wb') as f:
+            pickle.dump((binding, mg, props, paths, ncfg, seed), f)
+        e = dict(os.environ)
+        e.update(env)
+        p = subprocess.run([sys.executable, '-W', 'ignore', '-m', 'harness.envchild', job, out], env=e,
+                           stdout=subprocess.PIPE, stderr=subprocess.STDOUT, text=True, timeout=timeout)
+        if not os.path.exists(out):
+            from .common import Machinery
+            raise Machinery('environment child failed: ' + p.stdout[-2000:])
+        with open(out, 'rb') as f:
+            return pickle.load(f)
+    finally:
+        shutil.rmtree(d, ignore_errors=True)
